@@ -233,7 +233,7 @@ func runPrec(r *core.Run) {
 			r.Fail("operator "+t+" has an arm", sw.Pos(), "binary/assignment operator "+t+" is not handled by parseExpressionSuffix")
 		}
 	}
-	r.Floor("operator arms", arms, 14)
+	r.Floor("operator arms", arms, 10)
 
 	// 3. prefix operators in parseExpression: every UnaryExpr built there reaches the suffix loop with precLeft == OpUnary
 	fn := r.Prog.SSAFunc("js", "Parser", "parseExpression")
